@@ -312,7 +312,7 @@ def called (q : Query) : Option Ev :=
 /-- `self.value = value` -/
 def store (vals : CharId → Val) (q : Query) : CharId → Val :=
   match q.valid with
-  | some n => fun c => if c = q.id then n else vals c
+  | some n => fun c => if c = q.id then kept q n else vals c
   | none => vals
 
 def storeAll (vals : CharId → Val) : List Query → CharId → Val
@@ -730,7 +730,7 @@ theorem storeAll_not_mem (qs : List Query) (vals : CharId → Val) (c : CharId)
     | some n => simp [Ne.symm hp]
 
 theorem storeAll_of_mem (qs : List Query) (vals : CharId → Val) (q : Query) (n : Val)
-    (hd : Distinct qs) (hq : q ∈ qs) (hv : q.valid = some n) : storeAll vals qs q.id = n := by
+    (hd : Distinct qs) (hq : q ∈ qs) (hv : q.valid = some n) : storeAll vals qs q.id = kept q n := by
   induction qs generalizing vals with
   | nil => cases hq
   | cons p ps ih =>
@@ -1074,7 +1074,7 @@ theorem entry_closed_form (nu : Bool) (T : Topo) (B : Behav) (expired : Bool) (v
         (answered expired q = true ∧ r = entryRes true expired T B q)) ∧
     (setChars true nu T B expired vals qs).vals q.id =
         (if (answered expired q && runs true expired T q) = true
-         then (match q.valid with | some n => n | none => vals q.id) else vals q.id) ∧
+         then (match q.valid with | some n => kept q n | none => vals q.id) else vals q.id) ∧
     charCalls (setChars true nu T B expired vals qs).log q.id =
         (if (answered expired q && runs true expired T q) = true then (calledVal q).toList else []) := by
   refine ⟨?_, ?_, ?_⟩
